@@ -53,6 +53,8 @@ def shapes(tier, seed):
         # extra signed header with redundant spaces; body bytes
         out.append((carrier, 'root', (), (), False, False, 'hdr'))
         out.append((carrier, 'root', (), (), False, False, 'body'))
+        for extra in ('date-http', 'date-http-signed', 'date-iso-signed'):
+            out.append((carrier, 'root', (), (), False, False, extra))
         if not q:
             out.append((carrier, 'path2', (LIT, PUP), (), False, False, None))
             out.append((carrier, 'path2', (PLO, LIT), (('p', LIT, LIT),), True, True, 'hdr'))
@@ -163,6 +165,16 @@ def build(ctx, shape):
         signed.append('x-e')
     if extra == 'body':
         body = sym_bytes(ctx, 'body', 2)
+    if extra and extra.startswith('date-'):
+        # a Date header travelling next to X-Amz-Date (added by an HTTP stack, or an ISO date a few seconds off): X-Amz-Date is authoritative
+        if extra == 'date-iso-signed':
+            dv = conc_bytes('20150830T1235') + [Int('u8', ctx.fresh_bv('ds0', 8)), Int('u8', ctx.fresh_bv('ds1', 8))] + conc_bytes('Z')
+            ctx.assume(z3.And(z3.UGE(dv[13].v, 0x30), z3.ULE(dv[13].v, 0x35), z3.UGE(dv[14].v, 0x30), z3.ULE(dv[14].v, 0x39)))
+        else:
+            dv = conc_bytes('Sun, 30 Aug 2015 12:36:00 GMT')
+        headers.append(('date', dv))
+        if extra != 'date-http':
+            signed.append('date')
     return dict(carrier=carrier, segs=segs, wire_path=wire_path, pairs=pairs, wire_q=wire_q, headers=headers, signed=signed,
                 body=body, tok=tok, s3=s3)
 
@@ -391,7 +403,7 @@ def bounds(tier):
     return ('both carriers; path of one decoded byte (any value) spelled literal / %XX / %xx, S3 mode on/off, session token; one query '
             'parameter with one-byte name and value in every spelling (incl. + for space); two parameters in both orders, a name that is a '
             'prefix of another followed by a byte sorting below "=", repeated names, a parameter without "=", empty name / empty value; a '
-            'signed header with redundant leading/inner/trailing spaces around three symbolic bytes; a two-byte symbolic body; key 32 symbolic '
+            'signed header with redundant leading/inner/trailing spaces around three symbolic bytes; a two-byte symbolic body; a Date header (RFC 7231 text, unsigned or signed, or an ISO time with symbolic seconds) next to X-Amz-Date; key 32 symbolic '
             'bytes; server clock = request time' + ('' if tier == 'quick' else '; two-byte path segments'))
 
 
